@@ -1133,6 +1133,7 @@ func vC03RunConv(c vSx, res *vC03Res) {
 // ---------------------------------------------------------------- running a case
 type vC03Res struct {
 	obs        vSx
+	key        string // known-finding classifier of the first oracle failure, or ""
 	oracle     string
 	detail     string
 	nontrivial bool
@@ -1775,6 +1776,66 @@ func vC03RunExpectMessage(c vSx, res *vC03Res) {
 	}
 }
 
+// case (6 kind tid init (xdata...)): k payloads in sequence into ONE packet object
+func vC03RunReuse(c vSx, res *vC03Res) {
+	if len(c.l) != 5 || !c.l[1].isInt() || !c.l[2].isInt() || !c.l[3].isList() || !c.l[4].isList() || len(c.l[3].l) > 1 {
+		res.obs = vL(vZ(-1))
+		return
+	}
+	kind, tid := c.l[1].int(), c.l[2].u64()
+	var rcv Packet
+	if len(c.l[3].l) == 1 {
+		p, ok := vC03PktFromSx(c.l[3].l[0])
+		if !ok || p.kind != kind {
+			res.obs = vL(vZ(-1))
+			return
+		}
+		rcv = vC03BuildPkt(p)
+	} else {
+		rcv = vC03New(kind, tid)
+	}
+	if rcv == nil {
+		res.obs = vL(vZ(-1))
+		return
+	}
+	res.hist = "reuse-" + vC03KindName(kind)
+	var out []vSx
+	for di, d := range c.l[4].l {
+		if !d.isBytes() {
+			break
+		}
+		err, pan := vC03Unmarshal(rcv, d.b)
+		out = append(out, vC03ObsPkt(rcv, err, pan))
+		// the same bytes into a fresh packet
+		fresh := vC03New(kind, tid)
+		ferr, fpan := vC03Unmarshal(fresh, d.b)
+		switch {
+		case pan:
+			res.bad("no-panic", fmt.Sprintf("payload %d (%x) into a %s that already holds a value panicked", di, d.b, vC03KindName(kind)))
+		case fpan:
+			res.bad("no-panic", fmt.Sprintf("payload %d (%x) into a fresh %s panicked", di, d.b, vC03KindName(kind)))
+		case (err == nil) != (ferr == nil):
+			res.bad("reuse", fmt.Sprintf("payload %d: a reused %s gives err=%v, a fresh one err=%v", di, vC03KindName(kind), err, ferr))
+		case err == nil:
+			got, want := vC03DumpPkt(rcv), vC03DumpPkt(fresh)
+			gb, _, gp := vC03MarshalPk(rcv)
+			fb, _, _ := vC03MarshalPk(fresh)
+			if !vC03PktEqual(got, want) || rcv.Size() != fresh.Size() || gp || !bytes.Equal(gb, fb) {
+				res.bad("reuse", fmt.Sprintf("payload %d (%x): a reused %s holds %s Size %d, a fresh decode of the same bytes %s Size %d", di, d.b, vC03KindName(kind), vC03PktSx(got), rcv.Size(), vC03PktSx(want), fresh.Size()))
+			} else if fresh.Size() > len(d.b) {
+				res.bad("size", "Size() exceeds the input")
+			}
+		}
+		if err != nil || pan {
+			break
+		}
+		if di > 0 {
+			res.nontrivial = true
+		}
+	}
+	res.obs = vOk(vLs(out))
+}
+
 func vC03Run(c vSx) *vC03Res {
 	res := &vC03Res{hist: "bad"}
 	if !c.isList() || len(c.l) < 2 || !c.l[0].isInt() {
@@ -1801,6 +1862,9 @@ func vC03Run(c vSx) *vC03Res {
 		return res
 	case 5:
 		vC03RunConv(c, res)
+		return res
+	case 6:
+		vC03RunReuse(c, res)
 		return res
 	}
 	res.obs = vL(vZ(-1))
@@ -2408,7 +2472,107 @@ func vC03GenConv(r *vRng) vSx {
 	return vL(vZ(5), vZ(sid), vI(r.pickInt(0, 1, 2, 7, 64, 128, 4096)), vLs(bursts))
 }
 
+// payloads for one reused receiver: the same packet type with and without its optional
+// trailing fields, arguments of equal / larger / smaller size than the previous ones, command
+// objects of different sizes, now and then a truncated payload
+func vC03GenReuse(r *vRng) vSx {
+	kind := r.intn(11)
+	tid := vC03GenBits(r)
+	var init []vSx
+	if r.chance(1, 3) {
+		init = append(init, vC03PktSx(vC03GenPkt(r, kind, true, false)))
+	}
+	sized := func(n int) *vC03Node {
+		switch r.intn(3) {
+		case 0:
+			return &vC03Node{kind: 2, s: bytes.Repeat([]byte("q"), n)} // 3+n bytes
+		case 1:
+			return &vC03Node{kind: 3, props: []vC03Prop{{key: bytes.Repeat([]byte("k"), n), val: &vC03Node{kind: 5}}}}
+		}
+		return &vC03Node{kind: 0, bits: vC03GenBits(r)} // 9 bytes
+	}
+	base := vC03GenPkt(r, kind, true, false)
+	var ds []vSx
+	prev := 6
+	for i, n := 0, r.rng(2, 6); i < n; i++ {
+		p := *base
+		if r.chance(1, 3) {
+			q := vC03GenPkt(r, kind, true, false)
+			p = *q
+		}
+		switch kind {
+		case 0, 1:
+			switch r.intn(5) {
+			case 0:
+				p.args = nil
+			case 1:
+				p.args = &vC03Node{kind: 3, props: []vC03Prop{{key: bytes.Repeat([]byte("k"), prev), val: &vC03Node{kind: 5}}}}
+			case 2:
+				prev += r.rng(1, 9)
+				p.args = &vC03Node{kind: 3, props: []vC03Prop{{key: bytes.Repeat([]byte("k"), prev), val: &vC03Node{kind: 5}}}}
+			case 3:
+				if prev > 1 {
+					prev -= r.rng(1, prev-1)
+				}
+				p.args = &vC03Node{kind: 3, props: []vC03Prop{{key: bytes.Repeat([]byte("k"), prev), val: &vC03Node{kind: 5}}}}
+			}
+			if r.chance(1, 3) {
+				p.obj = vC03GenObj(r, false)
+			}
+		case 2:
+			if p.obj == nil {
+				p.obj = &vC03Node{kind: 5}
+			}
+			switch r.intn(5) {
+			case 0:
+				p.args = nil
+			case 1:
+				p.args = sized(prev)
+			case 2:
+				prev += r.rng(1, 9)
+				p.args = sized(prev)
+			case 3:
+				if prev > 1 {
+					prev -= r.rng(1, prev-1)
+				}
+				p.args = sized(prev)
+			}
+			if r.chance(1, 3) {
+				p.obj = sized(r.rng(0, 12))
+			}
+			if r.chance(1, 8) {
+				p.obj, p.args = nil, nil
+			}
+		case 3, 4, 5, 6:
+			if r.chance(1, 2) {
+				p.obj = sized(r.rng(0, 12))
+			}
+			if kind == 3 && r.chance(1, 5) {
+				p.obj = nil
+			}
+		case 10:
+			p.et = uint16(r.pickInt(3, 0, 0x1a, 4, 3, 6))
+			p.d, p.x = vC03GenU32(r), 0
+			if p.et == 0x1a {
+				p.d &= 0xff
+			}
+			if p.et == 3 {
+				p.x = vC03GenU32(r) | 1
+			}
+		}
+		b := vC03Marshal(&p)
+		if r.chance(1, 14) && len(b) > 0 {
+			b = b[:r.intn(len(b))]
+		}
+		ds = append(ds, vB(b))
+	}
+	return vL(vZ(6), vI(kind), vU(tid), vLs(init), vLs(ds))
+}
+
 func vC03Gen(r *vRng) vSx {
+	if r.chance(1, 7) {
+		return vC03GenReuse(r)
+	}
 	if r.chance(1, 8) {
 		return vC03GenConv(r)
 	}
@@ -2437,7 +2601,7 @@ func TestVerifC03(t *testing.T) {
 			k.count("class", fmt.Sprint(res.obs.l[0].i64()))
 		}
 		if res.oracle != "" {
-			k.fail(idx, c.size(), res.oracle, "", res.detail)
+			k.fail(idx, c.size(), res.oracle, res.key, res.detail)
 		}
 	}
 	if k.replay != nil {
